@@ -153,6 +153,19 @@ def check_config(cfg, w, rep):
                     check_blocking_closure(cfg, w, rep, body, cb, caps, tt)
         rep.floor("blocking_closures_owning_temp", n_cl, 4, cfg)
 
+    # ---- (f) a rejected commit performs no filesystem mutation (reused C08 clause) ----
+    from ..framework import Report
+    from . import c08
+    sub = Report("C08")
+    for p in R.commits:
+        c08.check_commit(cfg, w, sub, prog.fns[p])
+    for (c_, rule, k, desc, ok) in sub.obligations:
+        if rule == "rejection-has-no-effect" and ok:
+            rep.ob(cfg, "f/" + rule, k, desc)
+    for k, v in sub.violations.items():
+        if v.rule == "rejection-has-no-effect":
+            rep.violation("f:%s" % k, v.msg, loc=v.loc, config=cfg, rule="f/" + v.rule)
+
     # ---- (e) commit/close consume the writer ----
     n_c = 0
     for p in list(R.commits) + list(R.content_closes):
